@@ -103,7 +103,13 @@ Count(cs, e) == Cardinality({k \in 1..Len(cs) : cs[k] = e})
 
 \* ------------------------------------------------------------------ documented input handling (shared by P and A)
 \* the default: a Boolean for a confirmation; for the others a text (for a choice question the text of an index)
-DefaultVal(qq) == IF qq.kind = "confirm" THEN VBool(qq.defB) ELSE IF qq.hasDef THEN VStr(qq.def) ELSE VNone
+\* A single-select choice question may get its default as an int (ChoiceQuestion(q, heroes, 1)): defInt; the value is then
+\* [t "int", s = its decimal text].  It is the default as configured (what a non-interactive ask returns); as an answer
+\* it denotes what its text denotes (the validator turns ints into str): Text(v).
+VInt(s) == [t |-> "int", s |-> s, l |-> <<>>, b |-> FALSE]
+Text(v) == IF v.t = "int" THEN VStr(v.s) ELSE v
+DefaultVal(qq) == IF qq.kind = "confirm" THEN VBool(qq.defB)
+                  ELSE IF qq.hasDef THEN (IF qq.defInt THEN VInt(qq.def) ELSE VStr(qq.def)) ELSE VNone
 \* a typed line is trimmed; an empty line stands for the default
 Entry(qq, line) == LET t == Strip(line) IN IF t = <<>> THEN DefaultVal(qq) ELSE VStr(t)
 
@@ -149,7 +155,8 @@ One(cs, v) == IF Count(cs, v) > 1 THEN [ok |-> FALSE, s |-> <<>>]
 
 \* SelectChoiceValidator keeps `question.choices` - a reference to the caller's list, hence its current content
 Values(qq) == IF SnapshotChoices THEN qq.built ELSE qq.choices
-ChoiceValidate(qq, c) ==
+ChoiceValidate(qq, c0) ==
+  LET c == Text(c0) IN                                   \* `if isinstance(selected, int): selected = str(selected)`
   IF c.t # "str" THEN Bad("TypeError")                  \* empty line and no default: None reaches the validator
   ELSE IF qq.multi
        THEN LET ps == Parts(c.s)
@@ -288,7 +295,8 @@ MinOf(S) == CHOOSE k \in S : \A j \in S : k <= j
 
 \* an entry value (VStr or, for an empty line without default, VNone); multi-select: comma-separated, blanks
 \* around the items are insignificant (tabs there: free), every item is classified on its own
-PClass(qq, ev) ==
+PClass(qq, ev0) ==
+  LET ev == Text(ev0) IN
   IF ev.t # "str" THEN [c |-> "free", v |-> VNone, why |-> "empty"]
   ELSE IF ~(qq.kind = "choice" /\ qq.multi)
        THEN LET r == PClass1(qq, ev.s)
